@@ -6,6 +6,7 @@ func init() {
 		Trusted:     []string{"go/types constant evaluation of the literals", "the model of the ~40 lines that expand the tables (allMcRotations' closure and sort, mcLookupTable's first-wins fill, Compose/ApplyTriangle/ApplyIntersections, mcTriangle.Triangle's midpoints); each modelled function is resolved on every run"},
 		Assumptions: []string{"the lattice scan hands each cell its true corner bits (run-time indexing in Scan/GetCube is not analysed)"},
 		Exhaustive:  true,
+		Fixtures:    []string{"s"},
 		SelfTest: []Mutation{
 			{Name: "single-corner case wound the other way", File: "model3d/mc.go",
 				Old: "\tnewMcIntersections(0): {\n\t\t{0, 1, 0, 2, 0, 4},\n\t},", New: "\tnewMcIntersections(0): {\n\t\t{0, 2, 0, 1, 0, 4},\n\t},", Rule: "A1.ORIENT", Expect: "case 00000001"},
@@ -31,6 +32,8 @@ func init() {
 				Old: "\t\t{p1, p2, p4},\n\t\t{p2, p3, p4},", New: "\t\t{p1, p2, p4},\n\t\t{p1, p3, p4},", Rule: "A1.BOX", Expect: "box"},
 			{Name: "worker meshes the queued block instead of the piece it is handed", File: "model3d/mc.go",
 				Old: "block.Pieces(subDivideVolume, blockFilter, func(block *mcBlock) {", New: "block.Pieces(subDivideVolume, blockFilter, func(piece *mcBlock) {", Rule: "WRONGVAR", Expect: "MarchingCubesFilter"},
+			{Name: "torus inner index wrapped with the outer count", File: "model3d/mesh.go",
+				Old: "theta := float64(innerIndex%innerStops) * math.Pi * 2 / float64(innerStops)", New: "theta := float64(innerIndex%outerStops) * math.Pi * 2 / float64(innerStops)", Rule: "MODFRAC", Expect: "NewMeshTorus"},
 			{Name: "two-corner quad split with a flipped triangle", File: "model3d/mc.go",
 				Old: "\t\t{0, 4, 1, 5, 0, 2},\n\t\t{1, 5, 1, 3, 0, 2},\n\t},\n\tnewMcIntersections(0, 5): {", New: "\t\t{0, 4, 1, 5, 0, 2},\n\t\t{1, 3, 1, 5, 0, 2},\n\t},\n\tnewMcIntersections(0, 5): {", Rule: "A1.CLOSED", Expect: "case 00000011"},
 		},
@@ -49,6 +52,10 @@ func init() {
 			c.floor("A1.BOX", 2)
 			c.runWrongVar("WRONGVAR", c.libPkgs()[:3], nil)
 			c.floor("WRONGVAR", 2)
+			c.runModFrac("MODFRAC", append(c.libPkgs()[:3:3], c.fixturePkg("s")))
+			c.floor("MODFRAC", 2)
+			c.runCanonFirst("CANON", c.libPkgs()[:1])
+			c.floor("CANON", 2)
 		},
 	})
 }
